@@ -27,7 +27,11 @@ Definition outResult (t : tool) (argv : list tok) : wire :=
   let r := run_tool t argv in
   outFinal (r_final r) ++ [zn (List.length (r_execs r))] ++ flat_map outExec (r_execs r)
   ++ [zn (List.length (t_decls t))]
-  ++ flat_map (fun d => outVal (typed_lookup argv (d_name d)) ++ outTok (decl_string argv d)) (t_decls t).
+  ++ flat_map (fun d => outVal (typed_lookup argv (d_name d)) ++ outTok (decl_string argv d)) (t_decls t)
+  ++ match conv_plan_of gen_suffix_formats t argv with
+     | None => [0]
+     | Some p => [1] ++ outTok (cp_in p) ++ outTok (cp_in_fmt p) ++ outTok (cp_out p) ++ outTok (cp_out_fmt p)
+     end.
 
 Fixpoint offenders (ts : list tool) (idx : nat) : wire :=
   match ts with
@@ -40,6 +44,9 @@ Fixpoint offenders (ts : list tool) (idx : nat) : wire :=
       ++ (if aliases_ok t then [] else [zn idx; -4; 0])
       ++ (if documented_ok t then [] else [zn idx; -5; 0])
       ++ (if tool_params_used_ok t then [] else [zn idx; -6; 0])
+      ++ (if option_count_ok t then [] else [zn idx; -7; 0])
+      ++ (if tool_doc_order_ok t then [] else [zn idx; -9; 0])
+      ++ (if unknown_check_ok t then [] else [zn idx; -8; 0])
       ++ offenders r (S idx)
   end.
 
